@@ -265,7 +265,14 @@ impl Vm {
                 self.compile_expression(lambda, false, car!(cdr!(rest)))?;
                 car!(rest)
             }
-            Cell::Pair(_, _) => {
+            Cell::Pair(variable, _) => {
+                if !variable.is_symbol() {
+                    return Err(InvalidArgs(
+                        "define".into(),
+                        "symbol or (variable formals)".into(),
+                        car!(rest).to_string(),
+                    ));
+                }
                 self.compile_lambda(lambda, expr, true)?;
                 car!(car!(rest))
             }
